@@ -140,7 +140,11 @@ def gen_generic(rng, d, nslots=3, nev=14, ops=None, cats=CATS, init=2):
             out.append(ev)
             if t not in live:
                 live.append(t)
-            (mutable.add if a in mutable else mutable.discard)(t)
+            if D.has_sq(d):
+                # the call raises for f > 0 (transformed Count): the slot then keeps what it held
+                (mutable.add if (a in mutable and t in mutable) else mutable.discard)(t)
+            else:
+                (mutable.add if a in mutable else mutable.discard)(t)
         elif op in ("Zero", "Copy", "Pickle"):
             a, t = rng.choice(live), rng.choice(slots)
             out.append({"op": op, "t": t, "a": a})
